@@ -124,6 +124,7 @@ func runC03(c *Ctx) {
 		"(5) the C operator / libm function / helper macro is the one for the mnemonic, unsigned mnemonics compute on unsigned views and signed ones do not, shift counts are masked with width-1, " +
 		"narrow loads extend with the mnemonic's signedness and transfer the mnemonic's width, and integer conversions do not narrow through a smaller integer type. " +
 		"(6) around the templates: list pops last-to-first and pushes first-to-last, carried results moved upwards, the memory.grow condition cannot wrap, every register view is a member of the emitted val_t, float values are printed as hexadecimal floating constants, the rotate macros work on the unsigned value, x rem_s -1 is guarded. " +
+		"(7) the C statement of every numeric arm (123) and the statements of every load and store arm (23) are evaluated with the checker's own model of ISO C typing (promotions, usual arithmetic conversions, undefined behaviour for signed overflow, shift counts, division and out-of-range conversions; prelude macros expanded from _math_x.c) over a grid of boundary operands and a modelled linear memory, and the stored value is WebAssembly's; for the arms this decides, the shape rules of (4) and (5) are not applied. (8) branch arms: carried results are located before they are popped, br_table moves results after its case label, the epilogue is chosen on the last top-level instruction, no text is written behind an open // comment, data literals survive trigraph replacement, memory is indexed unsigned, memory.copy is memmove. " +
 		"NOT decided: trap behaviour of C operators (division by zero, out-of-range float->int: operands WebAssembly traps on are not evaluated), memory bounds, the stack model of blocks and branches beyond these rules."
 	c.Trusted = []string{"go/packages, go/types (x/tools v0.29.0)", "embedded WebAssembly instruction table", "C operator / libm table in c03.go"}
 	c.Exhaust = true
